@@ -6,6 +6,7 @@ CONSTANTS
   Keys = {"x"}
   Vals = {"1", "2"}
   MaxLoops = 3
+  Construct = FALSE
   Concurrent = TRUE
 INVARIANT TypeOK
 INVARIANT CycleBounded
